@@ -63,7 +63,8 @@ class Mux:
                 "Mp4Writer::write_end": self.w_end, "Mp4TrackWriter::write_sample": self.tw_sample, "Mp4TrackWriter::write_end": self.tw_end}
 
     def traces(self, fn):
-        return self.T.ok_traces(fn["id"]) or []
+        # Write::flush moves no byte and no position: it is not an effect the ordering rules speak about
+        return [[e for e in tr if not (e["k"] == "io" and e.get("op") == "flush")] for tr in (self.T.ok_traces(fn["id"]) or [])]
 
     # -------------------------------------------------------------------------------------------
     def discover(self):
